@@ -47,6 +47,13 @@ def hStep : Handler := fun op j =>
   | "sys_rates" => do
       let vars ← getVars j "vars"
       let rs ← (← getArr j "rxns").mapM (resolveRxn vars)
+      -- `ratexs_len`: rates(..., ratexs=[None] * n): zip with the reaction list truncates
+      let rsAll := rs
+      let rs := match j.getObjVal? "ratexs_len" with
+        | .ok v => match v.getNat? with
+          | .ok n => rsAll.take n
+          | _ => rsAll
+        | _ => rsAll
       if rs.any Option.isNone then pure "KeyError" else
       pure (showRates (ratesDict vars (rs.filterMap id) (← getOptKeys j "keys") (← getCstr j "cstr")))
   | "law_rates_k" => do
@@ -59,7 +66,16 @@ def hStep : Handler := fun op j =>
         | "other" => pure ParamKind.otherRateExpr
         | _ => .error "!bad-arg:kinds"
       if kinds.length ≠ rs.length then .error "!bad-arg:kinds" else
-      pure (showExceptList (lawOfMassActionRatesK (← getRatList j "conc") (← getStrList j "keys") (rs.zip kinds)))
+      let defaultVars := match j.getObjVal? "variables_none" with | .ok (.bool true) => true | _ => false
+      let conc ← getRatList j "conc"
+      let keys ← getStrList j "keys"
+      let res := if defaultVars then lawOfMassActionRatesDefaultVars conc keys (rs.zip kinds)
+                 else lawOfMassActionRatesK conc keys (rs.zip kinds)
+      match j.getObjVal? "as_generator" with
+      | .ok (.bool true) =>
+        -- dCdt_list(rsys, <generator>): the generator is only consumed by subscripting, which is a TypeError
+        pure (showExceptList (dCdtListOfGenerator keys rs : Except Err (List Rat)))
+      | _ => pure (showExceptList res)
   | "parse_refusal" => do
       pure (parseRefusal (← getStrList j "keys") (← getStr j "line"))
   | "sys_rates_default_cstr" => do
